@@ -189,12 +189,14 @@ CLAIMED = {
          "consecutive positions whatever their parity, keeps the variances in non-increasing order with equal variances inside a pair; that the "
          "modes gkl_sfi builds from orthonormal eigenvectors are orthonormal over the pupil on the native polar grid and (all but the constant "
          "one) have zero mean; that the kernel's sampled structure function is even so its DFT is real and each order's matrix symmetric, and "
-         "that eigenvectors diagonalise their order; that the returned pupil is exactly the annulus indicator, the masked rendering vanishes "
+         "that the modes built from eigenvectors satisfying the eigen-equations of the matrices handed to eigh DIAGONALISE the Kolmogorov covariance: "
+         "-1/2 times the double pupil average of K_i D(|x-x'|) K_j over the native grid (npp = 5 nr) is delta_ij times the returned variance, for "
+         "all selected modes but the constant one (circular-convolution algebra over the DFT library); that the returned pupil is exactly the annulus indicator, the masked rendering vanishes "
          "outside it and the resampling is a convex combination of four polar samples. Every stage of gkl_basis/make_kl (radii, kernel planes, "
          "piston filter, the matrices handed to eigh, stopping rule, selection from the recorded argsort, radial functions, azimuthal table, "
          "outer products, pupil, bilinear rendering for even and odd sizes) is compared with the model, twice per configuration in one process."),
    ref="9.2.1",
-   note="eigh/argsort results are inputs (contracts as premises, shown satisfiable); positivity of the variances, tip/tilt first and the resampling accuracy are only tested numerically; the full double-sum diagonalisation identity is tested numerically to 1e-8 and proved per order from the eigen-equation."),
+   note="eigh/argsort results are inputs (contracts as premises, shown satisfiable); positivity of the variances, tip/tilt first and the resampling accuracy are only tested numerically; positivity/'tip and tilt first' depend on the spectrum of the kernel."),
  "C18": dict(
    technique="Coq proof (list/sum algebra over R, carrier-generic index bounds, binary64 regression witnesses) over a hand model + bit-exact / recorded-restart vm_compute correspondence",
    text=("Machine-checked proofs that equivalent_layers returns exactly L layers (any carrier), assigns every input layer to a slab 1..L (upper "
